@@ -346,6 +346,7 @@ type JobResult struct {
 	Covers       map[string]int
 	CoverModels  map[string]map[string]string
 	Violations   []ViolationOut
+	Obs          []map[string]string // observations of each completed path (concrete ones only)
 	Inconclusive []string
 	FuncInstrs   map[string]int
 	FuncSym      map[string]bool
@@ -413,6 +414,7 @@ func (w *Worker) RunJob(job Job) (res *JobResult) {
 	res.FuncSym = in.FuncSym
 	res.Stubs = in.Stubs
 	res.Terms = w.Bank.Size()
+	res.Obs = in.PathObs
 	res.CoverModels = map[string]map[string]string{}
 	for tag, m := range in.CoverModel {
 		res.CoverModels[tag] = in.ModelValues(m)
